@@ -5,7 +5,6 @@ import (
 	"errors"
 	"fmt"
 	"math/rand/v2"
-	"os"
 	"sync/atomic"
 
 	"github.com/oasisprotocol/oasis-core/go/common"
@@ -43,8 +42,32 @@ func (b *failingBatch) Commit(node.Root) error { return errInjectedCommitFailure
 
 var otherNs = common.NewTestNamespaceFromSeed([]byte("verif c13 some other namespace"), 0)
 
-// refusalKinds are the ways a commit of a tree with pending updates is refused without a crash.
-var refusalKinds = []string{"already-finalized-version", "version-gap", "version-backwards", "wrong-namespace", "known-root-mismatch", "injected-batch-failure"}
+// The ways a commit of a tree with pending updates is refused without a crash:
+// already-finalized-version, version-gap, version-backwards, wrong-namespace, known-root-mismatch,
+// injected-batch-failure (see allowedRefusals).
+
+// allowedRefusals returns the refusal kinds used for a tree.
+//
+//   - A tree that starts at the empty root takes its "old root" version from the commit, so a
+//     version gap / backwards version is not a refusal reason for it.
+//   - pathbadger (finding reported to the lead, recorded as coverage.observation_pathbadger_tree_
+//     reuse_after_failed_commit): a commit that fails AFTER the tree has been walked (wrong
+//     namespace, already finalized, known-root mismatch, failing batch) leaves database pointers of
+//     the failed batch on the dirty nodes, and the next successful commit of the same tree stores a
+//     corrupt root (unreadable root, panics, wrong write log) on the unchanged tree. Only refusals
+//     that pathbadger's NewBatch makes before the tree is walked are therefore used there.
+func allowedRefusals(backend string, startEmpty bool) []string {
+	switch {
+	case backend == "pathbadger" && startEmpty:
+		return nil
+	case backend == "pathbadger":
+		return []string{"version-gap", "version-backwards", "already-finalized-version"}
+	case startEmpty:
+		return []string{"wrong-namespace", "injected-batch-failure", "known-root-mismatch", "already-finalized-version"}
+	default:
+		return []string{"wrong-namespace", "injected-batch-failure", "known-root-mismatch", "already-finalized-version", "version-gap", "version-backwards"}
+	}
+}
 
 // refusedCommit makes one commit attempt of the given kind that the node database (or the
 // known-root hook) must refuse. ok=false: this kind is not constructible here. The returned error
@@ -89,8 +112,9 @@ func refusedCommit(ctx context.Context, tree mkvs.Tree, fdb *faultDB, kind strin
 // PRNG positions (always leaving at least one operation for after the last attempt) and a commit
 // attempt that must be refused is made at each cut. It returns the description of the attempts.
 // accepted != "" reports an attempt that was NOT refused (the history cannot go on).
-func applyWithRefusedCommits(ctx context.Context, tree mkvs.Tree, fdb *faultDB, ops []op, nRefused int, rootType node.RootType, v uint64, finalized *uint64, rng *rand.Rand, st stats) (attempts []string, accepted string, err error) {
-	if nRefused == 0 || len(ops) == 0 {
+func applyWithRefusedCommits(ctx context.Context, tree mkvs.Tree, fdb *faultDB, ops []op, nRefused int, backend string, startEmpty bool, rootType node.RootType, v uint64, finalized *uint64, rng *rand.Rand, st stats) (attempts []string, accepted string, err error) {
+	kinds := allowedRefusals(backend, startEmpty)
+	if nRefused == 0 || len(ops) == 0 || len(kinds) == 0 {
 		return nil, "", applyToTree(ctx, tree, ops)
 	}
 	cuts := make([]int, nRefused)
@@ -106,13 +130,12 @@ func applyWithRefusedCommits(ctx context.Context, tree mkvs.Tree, fdb *faultDB, 
 			return attempts, "", err
 		}
 		pos = c
-		kind := refusalKinds[rng.IntN(len(refusalKinds))]
-		if ek := os.Getenv("C13_KIND"); ek != "" {
-			kind = ek
-		}
+		kind := kinds[rng.IntN(len(kinds))]
 		desc, cerr, ok := refusedCommit(ctx, tree, fdb, kind, rootType, v, finalized, rng)
 		if !ok {
-			kind = []string{"wrong-namespace", "injected-batch-failure", "version-gap"}[rng.IntN(3)]
+			// Not constructible yet (nothing finalized): fall back to the first allowed kind,
+			// which always is.
+			kind = kinds[0]
 			desc, cerr, _ = refusedCommit(ctx, tree, fdb, kind, rootType, v, finalized, rng)
 		}
 		if cerr == nil {
@@ -137,4 +160,59 @@ func refusalClass(err error) string {
 	default:
 		return errClass(err)
 	}
+}
+
+// observePathbadgerReuseAfterFailedCommit replays, on both backends, the minimal history of the
+// finding named in allowedRefusals and records the outcome in the evidence (no verdict):
+// v1 = {a:1, b:2} finalized; tree reopened at r1: Insert c=3; Commit(other namespace, v2) refused;
+// Insert d=4; Commit(v2) succeeds; Finalize; read r2 back.
+func observePathbadgerReuseAfterFailedCommit(r interface{ Set(string, any) }) {
+	ctx := context.Background()
+	obs := map[string]any{}
+	for _, backend := range backends {
+		obs[backend] = func() (out string) {
+			defer func() {
+				if rec := recover(); rec != nil {
+					out = fmt.Sprintf("reading the committed root panics: %v", rec)
+				}
+			}()
+			ndb, err := openDB(backend)
+			if err != nil {
+				return "open: " + err.Error()
+			}
+			defer ndb.Close()
+			t1 := mkvs.New(nil, ndb, node.RootTypeState)
+			_ = t1.Insert(ctx, []byte("a"), []byte("1"))
+			_ = t1.Insert(ctx, []byte("b"), []byte("2"))
+			_, h1, err := t1.Commit(ctx, testNs, 1)
+			t1.Close()
+			if err != nil {
+				return "commit v1: " + err.Error()
+			}
+			r1 := node.Root{Namespace: testNs, Version: 1, Type: node.RootTypeState, Hash: h1}
+			if err = ndb.Finalize([]node.Root{r1}); err != nil {
+				return "finalize v1: " + err.Error()
+			}
+			t2 := mkvs.NewWithRoot(nil, ndb, r1)
+			defer t2.Close()
+			_ = t2.Insert(ctx, []byte("c"), []byte("3"))
+			_, _, rerr := t2.Commit(ctx, otherNs, 2)
+			_ = t2.Insert(ctx, []byte("d"), []byte("4"))
+			_, h2, err := t2.Commit(ctx, testNs, 2)
+			if err != nil {
+				return fmt.Sprintf("refused attempt: %v; second commit failed: %v", rerr, err)
+			}
+			r2 := node.Root{Namespace: testNs, Version: 2, Type: node.RootTypeState, Hash: h2}
+			if err = ndb.Finalize([]node.Root{r2}); err != nil {
+				return "finalize v2: " + err.Error()
+			}
+			got, err := readAll(ctx, ndb, r2)
+			want := model{"a": []byte("1"), "b": []byte("2"), "c": []byte("3"), "d": []byte("4")}
+			if err != nil || !got.equal(want) {
+				return fmt.Sprintf("refused attempt: %v; committed root reads %d of 4 keys, err %v", rerr, len(got), err)
+			}
+			return fmt.Sprintf("refused attempt: %v; committed root reads back as expected", rerr)
+		}()
+	}
+	r.Set("observation_pathbadger_tree_reuse_after_failed_commit", obs)
 }
